@@ -22,6 +22,10 @@ KNOWN_FILE = VERIF / "known_findings.json"
 _KNOWN_RUNTIME: dict = {}   # (property, finding id) -> what the witness run observed in this run
 
 
+class EnoughEvidence(BaseException):
+    """raised to end a run early when the code under test has been seen to hang many times: the violations found so far are reported"""
+
+
 class InfraError(Exception):
     """Something in the machinery itself failed (exit 2, never a violation)."""
 
